@@ -27,9 +27,10 @@ VARIABLES l,        \* number of events consumed
           base,     \* snapshots that were already unreadable when the running command began (damage scenarios)
           dbase,    \* dangling index entries that predate the running command (damage scenarios)
           loading,  \* the state of a forked scenario is being re-emitted (no formula applies yet)
+          grace,    \* snapshots written through a handle whose index predates a prune: only Recoverable until the next prune (C10)
           lastEnd,  \* <<command, result>> of the command that ended last, <<>> once anything else happened
           viol      \* nonconformances of the last step
-vars == <<l, sc, packs, idx, snaps, marks, cmds, ao, now, excused, base, dbase, loading, lastEnd, viol>>
+vars == <<l, sc, packs, idx, snaps, marks, cmds, ao, now, excused, base, dbase, loading, grace, lastEnd, viol>>
 
 P == INSTANCE RepoProps
 
@@ -40,7 +41,7 @@ Empty == [x \in {} |-> {}]
 SkewTolerance == 2   \* seconds: logical times are floor()s of real clock readings
 
 Init == /\ l = 0 /\ sc = "" /\ packs = Empty /\ idx = Empty /\ snaps = Empty
-        /\ marks = Empty /\ cmds = Empty /\ ao = FALSE /\ now = 0 /\ excused = FALSE /\ base = {} /\ dbase = {} /\ loading = FALSE /\ lastEnd = <<>> /\ viol = {}
+        /\ marks = Empty /\ cmds = Empty /\ ao = FALSE /\ now = 0 /\ excused = FALSE /\ base = {} /\ dbase = {} /\ loading = FALSE /\ grace = {} /\ lastEnd = <<>> /\ viol = {}
 
 Ev == Rec[l + 1]
 Consume == l < Len(Rec) /\ l' = l + 1
@@ -50,7 +51,7 @@ Reset ==
   /\ sc' = Ev.id
   /\ packs' = Empty /\ idx' = Empty /\ snaps' = Empty /\ marks' = Empty /\ cmds' = Empty
   /\ ao' = (IF "append_only" \in DOMAIN Ev.cfg THEN Ev.cfg.append_only ELSE FALSE)
-  /\ now' = 0 /\ excused' = FALSE /\ base' = {} /\ dbase' = {} /\ loading' = ("fork_of" \in DOMAIN Ev) /\ viol' = {}
+  /\ now' = 0 /\ excused' = FALSE /\ base' = {} /\ dbase' = {} /\ loading' = ("fork_of" \in DOMAIN Ev) /\ grace' = {} /\ viol' = {}
 
 Begin ==
   /\ Ev.e = "begin"
@@ -59,12 +60,13 @@ Begin ==
          dry |-> IF "dry" \in DOMAIN Ev THEN Ev.dry ELSE FALSE,
          instant |-> IF "instant" \in DOMAIN Ev THEN Ev.instant ELSE FALSE,
          early |-> IF "early" \in DOMAIN Ev THEN Ev.early ELSE FALSE,
-         kd |-> IF "kd" \in DOMAIN Ev THEN Ev.kd ELSE 0])
+         kd |-> IF "kd" \in DOMAIN Ev THEN Ev.kd ELSE 0,
+         stale |-> IF "stale" \in DOMAIN Ev THEN Ev.stale ELSE FALSE])
   /\ now' = Ev.now
   /\ excused' = (excused \/ (("instant" \in DOMAIN Ev /\ Ev.instant) /\ ("early" \in DOMAIN Ev /\ Ev.early)))
   /\ viol' = {}
   /\ base' = P!Unreadable /\ dbase' = P!Dangling
-  /\ UNCHANGED <<sc, packs, idx, snaps, marks, ao, loading>>
+  /\ UNCHANGED <<sc, packs, idx, snaps, marks, ao, loading, grace>>
 
 Known(p) == p \in DOMAIN cmds
 Bump(p, f) == IF Known(p) THEN [cmds EXCEPT ![p][f] = @ + 1] ELSE cmds
@@ -84,6 +86,7 @@ End ==
                    THEN {<<"RefusedEarly", cmds[Ev.proc].cmd>>} ELSE {})
   /\ cmds' = IF Known(Ev.proc) THEN Drop(cmds, Ev.proc) ELSE cmds
   /\ lastEnd' = IF Known(Ev.proc) THEN <<cmds[Ev.proc].cmd, Ev.res>> ELSE <<>>
+  /\ grace' = IF Known(Ev.proc) /\ cmds[Ev.proc].cmd = "prune" /\ Ev.res = "ok" THEN {} ELSE grace
   /\ UNCHANGED <<sc, packs, idx, snaps, marks, ao, now, excused, base, dbase, loading>>
 
 BlobSet(seq) == Range(seq)
@@ -95,7 +98,7 @@ WPack ==
              \cup (IF ~Ev.sd THEN {<<"PackSelfDescribing", Ev.p>>} ELSE {})
              \cup (IF Ev.ow THEN {<<"Overwrite", "pack", Ev.p>>} ELSE {})
   /\ cmds' = Bump(Ev.proc, "nmut")
-  /\ UNCHANGED <<sc, idx, snaps, marks, ao, now, excused, base, dbase, loading>>
+  /\ UNCHANGED <<sc, idx, snaps, marks, ao, now, excused, base, dbase, loading, grace>>
 
 EntryOf(x) == [p |-> x.p, blobs |-> BlobSet(x.blobs), mark |-> x.mark, t |-> x.t]
 
@@ -117,7 +120,7 @@ WIdx ==
              \cup (IF ~Ev.decoded THEN {<<"IndexUndecodable", Ev.i>>} ELSE {})
              \cup (IF Ev.ow THEN {<<"Overwrite", "index", Ev.i>>} ELSE {})
   /\ cmds' = Bump(Ev.proc, "nmut")
-  /\ UNCHANGED <<sc, packs, snaps, ao, now, excused, base, dbase, loading>>
+  /\ UNCHANGED <<sc, packs, snaps, ao, now, excused, base, dbase, loading, grace>>
 
 WSnap ==
   /\ Ev.e = "wsnap"
@@ -126,6 +129,7 @@ WSnap ==
              \cup (IF ~Ev.decoded THEN {<<"SnapshotUndecodable", Ev.s>>} ELSE {})
              \cup (IF Ev.ow THEN {<<"Overwrite", "snapshot", Ev.s>>} ELSE {})
   /\ cmds' = Bump(Ev.proc, "nmut")
+  /\ grace' = IF Known(Ev.proc) /\ cmds[Ev.proc].stale THEN grace \cup {Ev.s} ELSE grace
   /\ UNCHANGED <<sc, packs, idx, marks, ao, now, excused, base, dbase, loading>>
 
 WOther ==
@@ -133,7 +137,7 @@ WOther ==
   /\ viol' = MutViol(Ev.proc, Ev.tpe)
   /\ ao' = ao   \* the append-only flag follows `cfg` events, not raw config writes
   /\ cmds' = Bump(Ev.proc, "nmut")
-  /\ UNCHANGED <<sc, packs, idx, snaps, marks, now, excused, base, dbase, loading>>
+  /\ UNCHANGED <<sc, packs, idx, snaps, marks, now, excused, base, dbase, loading, grace>>
 
 \* removal of pack p by a non-instant prune: p must carry a deletion mark older than keep-delete
 KeepDeleteViol(pr, p) ==
@@ -154,7 +158,7 @@ Rm ==
              \cup (IF ao /\ Ev.tpe \in {"pack", "index", "snapshot"} THEN {<<"AppendOnly", Ev.tpe, Ev.id>>} ELSE {})
              \cup (IF Ev.tpe = "pack" THEN KeepDeleteViol(Ev.proc, Ev.id) ELSE {})
   /\ cmds' = Bump(Ev.proc, "nmut")
-  /\ UNCHANGED <<sc, ao, now, excused, base, dbase, loading>>
+  /\ UNCHANGED <<sc, ao, now, excused, base, dbase, loading, grace>>
 
 \* a file removed behind the library's back (scenario construction, not a library step)
 Damage ==
@@ -164,32 +168,32 @@ Damage ==
   /\ snaps' = IF Ev.tpe = "snapshot" /\ Ev.id \in DOMAIN snaps THEN Drop(snaps, Ev.id) ELSE snaps
   /\ viol' = {}
   /\ base' = (P!Unreadable)' /\ dbase' = (P!Dangling)'
-  /\ UNCHANGED <<sc, marks, cmds, ao, now, excused, loading>>
+  /\ UNCHANGED <<sc, marks, cmds, ao, now, excused, loading, grace>>
 
 Baseline ==
   /\ Ev.e = "baseline"
   /\ loading' = FALSE
   /\ base' = P!Unreadable /\ dbase' = P!Dangling
   /\ viol' = {}
-  /\ UNCHANGED <<sc, packs, idx, snaps, marks, cmds, ao, now, excused>>
+  /\ UNCHANGED <<sc, packs, idx, snaps, marks, cmds, ao, now, excused, grace>>
 
 Fail ==
   /\ Ev.e = "fail"
   /\ cmds' = Bump(Ev.proc, "nfail")
   /\ viol' = {}
-  /\ UNCHANGED <<sc, packs, idx, snaps, marks, ao, now, excused, base, dbase, loading>>
+  /\ UNCHANGED <<sc, packs, idx, snaps, marks, ao, now, excused, base, dbase, loading, grace>>
 
 Tick ==
   /\ Ev.e = "tick"
   /\ now' = Ev.now
   /\ viol' = {}
-  /\ UNCHANGED <<sc, packs, idx, snaps, marks, cmds, ao, excused, base, dbase, loading>>
+  /\ UNCHANGED <<sc, packs, idx, snaps, marks, cmds, ao, excused, base, dbase, loading, grace>>
 
 Cfg ==
   /\ Ev.e = "cfg"
   /\ ao' = Ev.append_only
   /\ viol' = {}
-  /\ UNCHANGED <<sc, packs, idx, snaps, marks, cmds, now, excused, base, dbase, loading>>
+  /\ UNCHANGED <<sc, packs, idx, snaps, marks, cmds, now, excused, base, dbase, loading, grace>>
 
 \* the real read path (check --read-data, ls + dump of every snapshot) run on this very state
 Probe ==
@@ -199,8 +203,8 @@ Probe ==
                  s \in {x \in DOMAIN Ev.rest \cap DOMAIN snaps : P!Readable(x) /\ Ev.rest[x] \notin {"ok", "ok?"}}}
              \cup {<<"DriftReadableButAbstractSaysNo", s>> :
                  s \in {x \in DOMAIN Ev.rest \cap DOMAIN snaps : ~P!Readable(x) /\ Ev.rest[x] = "ok"}}
-             \cup (IF Ev.check # "clean" THEN {<<"CheckNotClean", Ev.check>>} ELSE {})
-  /\ UNCHANGED <<sc, packs, idx, snaps, marks, cmds, ao, now, excused, base, dbase, loading>>
+             \cup (IF Ev.check # "clean" /\ grace = {} THEN {<<"CheckNotClean", Ev.check>>} ELSE {})
+  /\ UNCHANGED <<sc, packs, idx, snaps, marks, cmds, ao, now, excused, base, dbase, loading, grace>>
 
 Next == Consume /\ (End \/ Probe \/ (lastEnd' = <<>> /\ (Reset \/ Begin \/ Baseline \/ Damage \/ WPack \/ WIdx \/ WSnap \/ WOther \/ Rm \/ Fail \/ Tick \/ Cfg)))
 Spec == Init /\ [][Next]_vars
@@ -210,7 +214,7 @@ Running == {cmds[p].cmd : p \in DOMAIN cmds}
 StepOK == viol = {} \/ PrintT(<<"NONCONF", l, sc, "step", viol>>)
 
 StateOK == loading \/
-  /\ P!Unreadable \ base = {} \/ PrintT(<<"NONCONF", l, sc, "state", {<<"Unreadable", P!Unreadable \ base, excused, Running>>}>>)
+  /\ (P!Unreadable \ base) \ grace = {} \/ PrintT(<<"NONCONF", l, sc, "state", {<<"Unreadable", (P!Unreadable \ base) \ grace, excused, Running>>}>>)
   /\ P!Unrecoverable = {} \/ PrintT(<<"NONCONF", l, sc, "state", {<<"Unrecoverable", P!Unrecoverable, excused, Running>>}>>)
   /\ P!Dangling \ dbase = {} \/ PrintT(<<"NONCONF", l, sc, "state", {<<"Dangling", {e.p : e \in P!Dangling \ dbase}, excused, Running>>}>>)
   /\ (lastEnd # <<"prune", "ok">> \/ P!NotBroughtBack = {}) \/ PrintT(<<"NONCONF", l, sc, "state", {<<"NotBroughtBack", P!NotBroughtBack, excused, Running>>}>>)
